@@ -44,7 +44,7 @@ static const char* kRejNames[]  = { "Ignore", "Throw", "custom" };
 struct Op
 {
     uint8_t kind;
-    uint8_t h[3]  = { 0, 0, 0 }; // handles
+    uint8_t h[4]  = { 0, 0, 0, 0 }; // handles
     uint8_t n     = 0;           // number of handles (ALL/ANY)
     uint8_t tk    = 0, rk = 0;
     std::string str() const
@@ -493,6 +493,7 @@ static void do_then(Real& R, const Op& op, int id, int derived, int inner, Rej r
 static std::string tuple_str(const std::tuple<int>& t) { return std::to_string(std::get<0>(t)) + ","; }
 static std::string tuple_str(const std::tuple<int, int>& t) { return std::to_string(std::get<0>(t)) + "," + std::to_string(std::get<1>(t)) + ","; }
 static std::string tuple_str(const std::tuple<int, int, int>& t) { return std::to_string(std::get<0>(t)) + "," + std::to_string(std::get<1>(t)) + "," + std::to_string(std::get<2>(t)) + ","; }
+static std::string tuple_str(const std::tuple<int, int, int, int>& t) { return std::to_string(std::get<0>(t)) + "," + std::to_string(std::get<1>(t)) + "," + std::to_string(std::get<2>(t)) + "," + std::to_string(std::get<3>(t)) + ","; }
 
 template <typename Tuple, typename PromiseT>
 static void watch_all(Real& R, int id, PromiseT&& pr)
@@ -561,8 +562,10 @@ static void run_real(const std::vector<Op>& prog, Real& R)
                     watch_all<std::tuple<int>>(R, id, Async::whenAll(*R.h[op.h[0]].p));
                 else if (op.n == 2)
                     watch_all<std::tuple<int, int>>(R, id, Async::whenAll(*R.h[op.h[0]].p, *R.h[op.h[1]].p));
-                else
+                else if (op.n == 3)
                     watch_all<std::tuple<int, int, int>>(R, id, Async::whenAll(*R.h[op.h[0]].p, *R.h[op.h[1]].p, *R.h[op.h[2]].p));
+                else
+                    watch_all<std::tuple<int, int, int, int>>(R, id, Async::whenAll(*R.h[op.h[0]].p, *R.h[op.h[1]].p, *R.h[op.h[2]].p, *R.h[op.h[3]].p));
                 break;
             }
             case ALLIT: {
@@ -589,8 +592,10 @@ static void run_real(const std::vector<Op>& prog, Real& R)
                     sp = std::make_shared<Async::Promise<Async::Any>>(Async::whenAny(*R.h[op.h[0]].p));
                 else if (op.n == 2)
                     sp = std::make_shared<Async::Promise<Async::Any>>(Async::whenAny(*R.h[op.h[0]].p, *R.h[op.h[1]].p));
-                else
+                else if (op.n == 3)
                     sp = std::make_shared<Async::Promise<Async::Any>>(Async::whenAny(*R.h[op.h[0]].p, *R.h[op.h[1]].p, *R.h[op.h[2]].p));
+                else
+                    sp = std::make_shared<Async::Promise<Async::Any>>(Async::whenAny(*R.h[op.h[0]].p, *R.h[op.h[1]].p, *R.h[op.h[2]].p, *R.h[op.h[3]].p));
                 sp->then([id](const Async::Any& a) { rlog("k" + std::to_string(id) + ":any:" + std::to_string(a.cast<int>())); },
                          [id](std::exception_ptr e) { rlog("k" + std::to_string(id) + ":rej:" + std::to_string(exc_id(e))); });
                 R.keep.push_back(sp);
@@ -780,9 +785,76 @@ static void gen_prefixes(std::vector<Op>& prog, const Model& m, int depth)
     }
 }
 
+// ---- combinator sweep: whenAll (variadic / range) and whenAny over 1..4 inputs, every input either settled before
+// the combinator is built or settled afterwards, in every order and with every outcome ------------------------------
+struct Sweep
+{
+    int kind, n, mask; // mask: base-3 digits, per input 0 = pending at creation, 1 = already fulfilled, 2 = already rejected
+};
+static std::vector<Sweep> gSweeps;
+
+static void sweep_case(const Sweep& sw, vr::Ctx& ctx)
+{
+    std::vector<Op> head;
+    std::vector<int> pending;
+    int m3 = sw.mask;
+    for (int i = 0; i < sw.n; ++i, m3 /= 3)
+    {
+        Op o;
+        o.kind = m3 % 3 == 0 ? NEW : m3 % 3 == 1 ? RESOLVED : REJECTED;
+        head.push_back(o);
+        if (m3 % 3 == 0)
+            pending.push_back(i);
+    }
+    Op comb;
+    comb.kind = (uint8_t)sw.kind;
+    comb.n    = (uint8_t)sw.n;
+    for (int i = 0; i < sw.n; ++i)
+        comb.h[i] = (uint8_t)i;
+    head.push_back(comb);
+    ctx.note("sweep " + prog_str(head));
+    uint64_t before = gPrograms;
+    std::vector<int> order = pending;
+    std::sort(order.begin(), order.end());
+    do
+    {
+        for (unsigned outcomes = 0; outcomes < (1u << order.size()); ++outcomes)
+        {
+            std::vector<Op> prog = head;
+            for (size_t k = 0; k < order.size(); ++k)
+            {
+                Op o;
+                o.kind = (outcomes >> k & 1) ? REJECT : RESOLVE;
+                o.h[0] = (uint8_t)order[k];
+                prog.push_back(o);
+            }
+            Model m;
+            for (size_t i = 0; i < prog.size(); ++i)
+                m.apply(prog[i], (int)i);
+            check_program(prog, m, ctx);
+            if (ctx.case_violations > 3)
+                break;
+        }
+    } while (std::next_permutation(order.begin(), order.end()) && ctx.case_violations <= 3);
+    ctx.count("executions", gPrograms - before);
+    ctx.count("evaluations", gPrograms - before);
+    ctx.count("transitions", (gPrograms - before) * (sw.n + 1 + pending.size()));
+    if (sw.mask == 0)
+        ctx.sample("{\"sweep\":" + vr::jstr(prog_str(head)) + ",\"orders_x_outcomes\":" + std::to_string(gPrograms - before) + "}");
+}
+
 int main(int argc, char** argv)
 {
     vr::Options opt = vr::parse_args(argc, argv);
+    for (int kind : { (int)ALL, (int)ALLIT, (int)ANY })
+        for (int n = 1; n <= 4; ++n)
+        {
+            int masks = 1;
+            for (int i = 0; i < n; ++i)
+                masks *= 3;
+            for (int mk = 0; mk < masks; ++mk)
+                gSweeps.push_back({ kind, n, mk });
+        }
     K               = opt.geti("K", 4);
     gMaxComb        = opt.geti("comb", 2);
     int pre         = std::min(K, (int)opt.geti("prefix", 3));
@@ -796,7 +868,12 @@ int main(int argc, char** argv)
         printf("%zu prefixes of length %d\n", gPrefixes.size(), pre);
         return 0;
     }
-    return vr::run(opt, gPrefixes.size(), [](uint64_t idx, vr::Ctx& ctx) {
+    return vr::run(opt, gPrefixes.size() + gSweeps.size(), [](uint64_t idx, vr::Ctx& ctx) {
+        if (idx >= gPrefixes.size())
+        {
+            sweep_case(gSweeps[idx - gPrefixes.size()], ctx);
+            return;
+        }
         std::vector<Op> prog = gPrefixes[idx];
         Model m;
         for (size_t i = 0; i < prog.size(); ++i)
